@@ -175,6 +175,10 @@ func (g *PG) trace() {
 		args = args[:7]
 	}
 	g.w("println(%s)\n", strings.Join(args, ", "))
+	if g.r.Intn(4) == 0 && !g.inFunc {
+		g.w("println(\"TF\", halfF(%s)/2, wrapB(%s)+10)\n", g.intExpr(1), g.intExpr(1))
+		g.f("typed-const-results")
+	}
 }
 
 func (g *PG) block(depth int) {
@@ -456,6 +460,8 @@ func GenProgram(r *RNG, depth int) (GoProg, map[string]bool) {
 	g.w("var fuel = 80\n\ntype T struct {\n\tA int\n\tB int\n}\n\nfunc (t *T) Sum(k int) int {\n\treturn t.A + t.B*k\n}\n\nfunc (t *T) Inc() {\n\tt.A++\n\tt.B += 2\n}\n\n")
 	g.w("func add(a int, b int) int {\n\treturn a + b\n}\n\nfunc isOdd(a int) bool {\n\treturn a%%2 != 0\n}\n\n")
 	g.w("func pair2(a int, b int) (int, int) {\n\treturn b, a + 1\n}\n\nfunc tri(a int) (int, int, int) {\n\treturn a, a + 1, a + 2\n}\n\n")
+	// results of other types than the parameters, returned as untyped constants: they take the result type
+	g.w("func halfF(n int) float64 {\n\tif n > 100000 {\n\t\treturn 3\n\t}\n\treturn 1\n}\n\nfunc wrapB(n int) byte {\n\treturn 250\n}\n\nfunc (t *T) Ratio() float64 {\n\treturn 3\n}\n\n")
 	nh := r.Intn(3)
 	for h := 0; h < nh; h++ {
 		g.w("func h%d(p int) int {\n", h)
